@@ -94,7 +94,15 @@ def run_case(i, seed, tier):
     cfg = g.cfg(index=i + seed * 11)
     profile = common.PROFILES[(i // 3) % len(common.PROFILES)]
     nops = g.rng.choice([2, 5, 10, 16, 24]) if tier == 'quick' else g.rng.choice([4, 10, 20, 35, 50])
-    if i % 4 == 1:
+    if i % 20 == 6:
+        cfg, sops = common.special_layout(g, common.SPECIALS[(i // 20) % len(common.SPECIALS)])
+        h = common.History(cfg, seed * 1000003 + i, 'std')
+        for op in sops:
+            h.apply(op)
+        ops = list(h.ops)
+        h.sess.close()
+        profile = 'special'
+    elif i % 4 == 1:
         from harness.props import c11
         cfg, pre, boot, post = c11.build(seed * 1000003 + i, tier)
         ops = pre + boot + post
